@@ -477,6 +477,39 @@ pub fn run(tier: &str) -> Report {
     for x in f_fpanic {
         fail(&mut f_panic, x);
     }
+    // ---- events and patterns at the edges of what the dependencies accept: numbers that `Raw` takes but serde_json::Value cannot
+    // hold, and wildcard patterns too big for the regex size limit. Rule evaluation must return (no panic).
+    let mut n_edge = 0u64;
+    let ruleset = ruma_common::push::Ruleset::server_default(&OwnedUserId::try_from("@me:s").unwrap());
+    for text in [
+        r#"{"sender":"@a:s","content":{"body":"x","n":1e999}}"#, r#"{"sender":"@a:s","n":-1e999}"#, r#"{"sender":"@a:s","n":123456789012345678901234567890}"#,
+        r#"{"sender":"@a:s","content":{"body":"x","n":[1e400,{"m":1E309}]}}"#, r#"{"sender":"@a:s","n":1.7976931348623157e308}"#, r#"{"sender":"@a:s","n":-0.0e-999}"#,
+    ] {
+        n_edge += 1;
+        let raw: Raw<Value> = Raw::from_json(serde_json::value::RawValue::from_string(text.to_owned()).unwrap());
+        let r = std::panic::catch_unwind(|| {
+            let f = FlattenedJson::from_raw(&raw);
+            (f.get_str("sender").is_some(), ruleset.get_actions(&raw, &ctx()).len())
+        });
+        if r.is_err() {
+            fail(&mut f_panic, json!({"event": text, "observed": "panic in FlattenedJson::from_raw / Ruleset::get_actions"}));
+        }
+    }
+    let raw: Raw<Value> = Raw::new(&json!({"sender": "@a:s", "content": {"body": "hello world"}})).unwrap();
+    for unit in ["?", "*a", "a?", "*"] {
+        for nrep in [1_000usize, 30_000, 100_000] {
+            n_edge += 1;
+            let cond = PushCondition::EventMatch { key: "content.body".into(), pattern: unit.repeat(nrep) };
+            let r = std::panic::catch_unwind(|| {
+                let f = FlattenedJson::from_raw(&raw);
+                cond.applies(&f, &ctx())
+            });
+            if r.is_err() {
+                fail(&mut f_panic, json!({"pattern": format!("{unit:?} repeated {nrep} times"), "key": "content.body", "observed": "panic in PushCondition::applies"}));
+            }
+        }
+    }
+    let n = n + n_edge;
     Report {
         bound: format!(
             "glob: {} patterns (all of length 1..3 over {{a,B,*,?,space,é}} + {} longer) x {} values (all of length 0..{} over {:?} + longer cases) x {{content.body, other key}}; flattening: {} objects with <= 2 entries over 5 keys x 14 values, 10 probe scalars per path; room_member_count: 6 operators x bounds 0..5 x member counts 0..7; rule selection: 7 per-kind configurations ^ 5 kinds x own/other sender",
